@@ -24,6 +24,7 @@ RULE = (
 ASSUMPTIONS = [
     "the '# dns_resolver' production is not a sentence of the text language ('#' starts a comment) and is exercised through the builder in C13 only",
     "comments and whitespace are not part of the token sequence",
+    "the language is what the grammar at the pinned commit accepts: in particular a string literal may hold a backslash in front of any character, line feed included (frozen in vf/ref/profile.py's tokenizer)",
 ]
 REQUIRED_MONITORS = ["tokens.equal", "tree.reparse", "accepted", "parse.independent", "from_path.same"]
 EXHAUSTIVE_WHEN = ["every_production_chain"]
@@ -188,6 +189,15 @@ def run_shard(shard, ctx):
             if ctx.out_of_time():
                 break
             s = PR.gen_profile(rng, max_statements=rng.choice([5, 20, 40, 80]), hostile=rng.random() < 0.7)
+            if rng.random() < 0.3:
+                # literal text the lexer accepts although it is none of the documented escapes: a backslash in front of a
+                # line feed (line continuation), of a blank, of any other character.  What it means is not this property's
+                # subject; that the token comes back unchanged is.
+                toks = list(s.tokens)
+                for k, t in enumerate(toks):
+                    if t.startswith('"') and len(t) >= 2 and rng.random() < 0.15:
+                        toks[k] = '"' + rng.choice(["\\\n", "\\ ", "\\/", "\\q", "\\;", "\\\r\n"]) + t[1:]
+                s.tokens = toks
             text = PR.render(s.tokens, rng)
             via_path = rng.random() < 0.25
             if via_path and rng.random() < 0.6:
